@@ -111,11 +111,13 @@ def truth(net, ob, t):
         (sm if w is True else su if w is None else set()).add(la.lanelet_id)
     half = None
     if geom.has_circle(d):
-        half = set()
+        # the halved-radius reading of the known Circle.shapely_object defect: (must, undecided-in-band)
+        half = (set(), set())
         dh = geom.desc_halved(d)
         for la in net.lanelets:
-            if geom.desc_ring_relation(dh, geom.lanelet_ring(la)) is not False:
-                half.add(la.lanelet_id)
+            w = geom.desc_ring_relation(dh, geom.lanelet_ring(la))
+            if w is not False:
+                half[0 if w is True else 1].add(la.lanelet_id)
     return cm, cu, sm, su, half
 
 
@@ -163,7 +165,7 @@ def run(ctx):
             if mode == "shape":
                 rs = recorded(ob, t, "shape")
                 if rs is None or not (sm <= set(rs) <= sm | su):
-                    if half is not None and rs is not None and set(rs) <= sm | su and (half & sm) <= set(rs) | su:
+                    if half is not None and rs is not None and half[0] <= set(rs) | su and set(rs) <= half[0] | half[1] | su:
                         ctx.violation("C07/recorded-shape-lanelets-wrong/as-if-circle-radius-halved",
                                       "obstacle %d t=%d: recorded %s, geometry says %s" % (oid, t, sorted(rs), sorted(sm)),
                                       wit)
